@@ -40,7 +40,8 @@ RULE = ('1..2 generated module classes (2..6 accessibles out of value/target/p1.
         'value is legal - string minchars/maxchars/isUTF8, blob minbytes/maxbytes, array minlen/maxlen (+ keys forwarded '
         'to the element type), float/int/scaled min/max; length of the value and overridden length drawn around each other '
         'and around the class-level bounds, the ORDER of the keywords of a Param is the order of the list in the case '
-        '(config.Param appends `value` last; the observed key order of every Param dict is compared with the model); '
+        '(config.Param appends `value` last; the observed key order of every Param dict is compared with the model; a '
+        'configured default stands before or after the overrides that decide about it); '
         'values valid, at the limits, outside the limits, of the '
         'wrong type; error injections (unknown name, unknown parameter property, ill-typed property, inverted limits, '
         'missing required value, invalid module name, unknown group member), several at once; non-trivial = at least one '
@@ -50,10 +51,6 @@ ASSUMPTIONS = [
     'struct of int/float members, blob, array of string; configured datatype properties are min, max, unit, minchars, '
     'maxchars, isUTF8, minbytes, maxbytes, minlen, maxlen (fmtstr, absolute_resolution, relative_resolution, scale are '
     'never configured); arrays are nested one level',
-    'a configured `default` written BEFORE a datatype override of the same Param that decides whether it is legal is not '
-    'generated (proposed finding C10/default-before-datatype-override: the code checks it with the datatype as it is at '
-    'that position; replays in corpus/C10/finding_default_before_datatype_override.json.pending); the model follows the '
-    'dict order in every case',
     'the class-level description of every accessible (datatype, default, value, export name, ...) is read from the real '
     'class object after class creation and given to the model as input: class creation/inheritance itself is C09',
     'datatype.default of the class-level datatype is supplied as data',
@@ -1034,23 +1031,15 @@ def gen_override_entry(rng, p):
             have.add(kv[0])
     if p.get('descr') is None and 'description' not in have and rng.random() < 0.8:
         props.insert(rng.randint(0, len(props)), ['description', G.tag('given in cfg')])
-    # a configured default: anywhere when the class-level and the configured datatype agree about it, AFTER the
-    # overrides when they do not (a default written BEFORE an override that decides about it is the proposed finding
-    # C10/default-before-datatype-override: corpus only)
-    if rng.random() < 0.25:
-        dcfg, okall = d, True
-        for k, v in over:
-            dcfg, st = spec_set(dcfg, k, v)
-            okall = okall and st in ('ok', 'other')
-        if okall:
-            for _ in range(6):
-                dv = gen_valid(rng, d) if rng.random() < 0.7 else (gen_outside(rng, d) or gen_valid(rng, d))
-                if spec_conv(d, dv)[0] == spec_conv(dcfg, dv)[0]:
-                    props.insert(rng.randint(0, len(props)), ['default', G.tag(dv)])
-                    break
-                if rng.random() < 0.5:
-                    props.append(['default', G.tag(dv)])
-                    break
+    # a configured default, before or after the overrides (since 8b6cdcd it is checked with the configured datatype
+    # wherever it stands): lengths drawn like those of the value, so that the override often decides about it
+    if rng.random() < 0.3:
+        r = rng.random()
+        if d['t'] in LEN_KEYS and r < 0.6:
+            dv = gen_len_override(rng, d)[0]
+        else:
+            dv = gen_valid(rng, d) if r < 0.9 else (gen_outside(rng, d) or gen_valid(rng, d))
+        props.insert(rng.randint(0, len(props)), ['default', G.tag(dv)])
     return ['param', G.tag(val), props]
 
 
@@ -1479,7 +1468,6 @@ def analyse_module(case, m, origin):
         x['conv_over'] = [k for k in e if k in CONV_KEYS and k in dt_props(d)]
         if len_inverted(dcfg):
             bad.append(f'inverted-limits:{n}')
-        keys = list(e)
         for k, v in e.items():
             if k in ('value', 'default'):
                 # the configured value / default must be a value of the CONFIGURED datatype
@@ -1490,9 +1478,6 @@ def analyse_module(case, m, origin):
                     bad.append(f'not-a-value-of-datatype:{n}.{k}')
                 else:
                     x['conv_' + k] = r[1]
-                if k == 'default' and any(keys.index(o) > keys.index(k) for o in x['conv_over']) \
-                        and (spec_conv(d, v)[0] == 'ok') != (r[0] == 'ok'):
-                    x['default_before_override'] = True
             elif k in PARAM_PROPS:
                 ok = prop_value_ok(k, v)
                 if ok is False:
@@ -1607,10 +1592,7 @@ def oracle(case, obs):
                 kinds = sorted({b.split(':')[0] for b in A['bad']})
                 fails.append(_fail('erroneous-accepted', f"module {name} registered although its configuration has "
                                    f"{', '.join(A['bad'][:4])}", module=name, reasons=A['bad'], kinds=kinds,
-                                   default_order_only=bool(A['bad']) and all(
-                                       b.startswith('not-a-value-of-datatype:') and b.endswith('.default') and
-                                       A['params'][b.split(':')[1].rsplit('.', 1)[0]].get('default_before_override')
-                                       for b in A['bad']),
+
                                    array_params=[n for n, x in A['params'].items()
                                                  if x['p'].get('dt') and x['p']['dt']['t'] == 'array']))
             elif name not in obs.get('error_modules', []):
@@ -1623,11 +1605,7 @@ def oracle(case, obs):
             if o['kind'] != 'created':
                 continue
         elif o['kind'] != 'created':
-            errs = o.get('errs') or []
-            fails.append(_fail('valid-rejected', f"module {name}: valid configuration rejected ({o.get('errs')})", module=name,
-                               default_order_only=bool(errs) and all(
-                                   e[0] == 'badvalue' and e[2] == 'default' and
-                                   A['params'].get(e[1], {}).get('default_before_override') for e in errs)))
+            fails.append(_fail('valid-rejected', f"module {name}: valid configuration rejected ({o.get('errs')})", module=name))
             all_clean = False       # the node refusing to start is the consequence already reported here
             continue
         fails.extend(check_applied(case, obs, name, A, o))
@@ -1812,11 +1790,6 @@ FINDING_CLASSIFIERS = {
     # configured value outside the (possibly overridden) limits of a parameter with a write method: cached, never written
     'out_of_range_not_written': lambda case, obs, f: f['class'] == 'write-count' and f['detail']['nwrites'] == 0
     and f['detail']['outside_limits'],
-    # proposed: a `default` written BEFORE a datatype override of the same Param that decides whether it is legal: checked
-    # with the datatype as it is at that position of the dict (order dependent): accepted and silently dropped, or a valid
-    # configuration refused.  Never the positional value of Param(...): config.Param puts it last.
-    'default_before_datatype_override': lambda case, obs, f: f['class'] in ('erroneous-accepted', 'valid-rejected')
-    and bool(f['detail'].get('default_order_only')),
 }
 
 
